@@ -722,7 +722,7 @@ def run(tier, seed):
         single = [c for c in full if sum(1 for o in OPTS if c["has"][o]) <= 1]
         multi = [c for c in full if sum(1 for o in OPTS if c["has"][o]) > 1]
         rnd.shuffle(multi)
-        todo = single + multi[:2200]
+        todo = single + multi[:1600]
     else:
         todo = full
         # real constants beyond the scaled model: longer budgets and later terminate indexes
